@@ -50,3 +50,7 @@ Inductive getstate_mode := GSWhitelist | GSVars | GSUnknown.
 
 (* tasks._task_post_init: is the cache_key (re)computed after the user's post_init has run, or only before it? *)
 Inductive key_mode := KeyAfterPostInit | KeyBeforePostInit | KeyUnknown.
+
+(* ProcessExecutor._consume_result_queue: is the liveness of the worker processes sampled before the result queue is drained
+   (a worker that delivers its result and exits during the drain is then simply seen at the next call), or after it? *)
+Inductive snap_pos := SnapBefore | SnapAfter | SnapUnknown.
